@@ -8,7 +8,7 @@ RELATED = {'C02': ['C02', 'C03', 'C08'], 'C03': ['C03', 'C02', 'C08'], 'C08': ['
 for SRC in SRCS:
   for agent in (sorted(os.listdir(SRC)) if os.path.isdir(SRC) else []):
       ad = os.path.join(SRC, agent)
-      if not os.path.isdir(ad) or agent.startswith('perm') or agent.startswith('ref'):
+      if not os.path.isdir(ad) or agent.startswith('perm') or agent.startswith('ref') or agent.startswith('nc'):
           continue
       prop = agent[:3].upper()
       for v in sorted(os.listdir(ad)):
